@@ -280,7 +280,7 @@ impl<T: RealNumber + ScalarOperand + AddAssign + SubAssign + MulAssign + DivAssi
     }
 
     fn dot(&self, other: &Self) -> T {
-        if (self.nrows() != 1 && other.nrows() != 1) && (self.ncols() != 1 && other.ncols() != 1) {
+        if (self.nrows() != 1 && self.ncols() != 1) || (other.nrows() != 1 && other.ncols() != 1) {
             panic!("A and B should both be either a row or a column vector.");
         }
         if self.len() != other.len() {
@@ -451,6 +451,9 @@ impl<T: RealNumber + ScalarOperand + AddAssign + SubAssign + MulAssign + DivAssi
     }
 
     fn max_diff(&self, other: &Self) -> T {
+        if self.nrows() != other.nrows() || self.ncols() != other.ncols() {
+            panic!("A and B should have the same shape");
+        }
         let mut max_diff = T::zero();
         for r in 0..self.nrows() {
             for c in 0..self.ncols() {
